@@ -122,6 +122,7 @@ def Val.nest1 (asValue : Bool) : Val → Bool
   | .rgb _ _ _ _ => asValue
   | .obj fs => fs.firstNoGhost && fs.nest1
   | .arr vs => vs.nest1
+  | .mixed _ _ => false
 def Fields.nest1 : Fields → Bool
   | .nil => true
   | .cons _ _ v rest => v.nest1 true && rest.nest1
@@ -301,6 +302,91 @@ theorem obj_front_reach (T : Tape) (p g : Nat) (k : Sc) (hk : k.wf = true) (s : 
     rw [e] at h2
     exact hg.trans (Reach.head h2 (Reach.head h3 (Reach.refl _)))
 
+/-! ## mixed containers -/
+
+theorem mixedInsert2_snoc2 (t0 : Tape) (x y : BTok) : mixedInsert2 (t0 ++ [x, y]) = .ok (t0 ++ [.mixed, x, y]) := by
+  have e1 : pop? (t0 ++ [x, y]) = some (t0 ++ [x], y) := by
+    have : t0 ++ [x, y] = (t0 ++ [x]) ++ [y] := by simp
+    rw [this]; simp [pop?]
+  have e2 : pop? (t0 ++ [x]) = some (t0, x) := by simp [pop?]
+  simp [mixedInsert2, e1, e2]
+
+/-- the `ObjectToArray` rewrite: the iteration continues as in `ArrayValueMixed` on the rewritten tape -/
+theorem step_o2a (t0 : Tape) (x y : BTok) (p : Nat) (data : Bytes) :
+    step ⟨t0 ++ [x, y], p, .objectToArray, data⟩ = step ⟨t0 ++ [.mixed, x, y], p, .arrayValueMixed, data⟩ := by
+  cases hr : readId data with
+  | none => rw [step_done (st := ⟨_, _, _, data⟩) hr, step_done (st := ⟨_, _, _, data⟩) hr]
+  | some pr =>
+    obtain ⟨tok, d⟩ := pr
+    rw [step_eq (st := ⟨_, _, _, data⟩) hr, step_eq (st := ⟨_, _, _, data⟩) hr]
+    simp [dispatch, mixedInsert2_snoc2]
+
+/-- `}` after a lone trailing scalar: `mixed_insert1`, then the close as in `ArrayValueMixed` -/
+theorem step_close_kvs (t0 : Tape) (x : BTok) (p : Nat) (rest : Bytes) :
+    step ⟨t0 ++ [x], p, .keyValueSeparator, le16 L.close ++ rest⟩
+      = step ⟨t0 ++ [.mixed, x], p, .arrayValueMixed, le16 L.close ++ rest⟩ := by
+  have hr := readId_le16 L.close (by decide) rest
+  rw [step_eq (st := ⟨_, _, _, _⟩) hr, step_eq (st := ⟨_, _, _, _⟩) hr]
+  have hm : mixedInsert1 (t0 ++ [x]) = .ok (t0 ++ [.mixed, x]) := by simp [mixedInsert1, pop?]
+  simp [dispatch, tokenArm_close, closeArm, hm]
+
+/-- scalars in a mixed container stay there -/
+theorem scalars_mixed_reach : ∀ (rs : List Sc), rs.all Sc.wf = true → ∀ (U : Tape) (P : Nat) (rest : Bytes),
+    Reach ⟨U, P, .arrayValueMixed, rs.flatMap Sc.encode ++ rest⟩ ⟨U ++ rs.map Sc.tok, P, .arrayValueMixed, rest⟩
+  | [], _, U, P, rest => by simpa using Reach.refl _
+  | r :: rs, hw, U, P, rest => by
+    simp only [List.all_cons, Bool.and_eq_true] at hw
+    have h1 := step_sc r hw.1 U P .arrayValueMixed .arrayValueMixed (rs.flatMap Sc.encode ++ rest) (by decide) nextState_arrayValueMixed
+    have h2 := scalars_mixed_reach rs hw.2 (U ++ [r.tok]) P rest
+    have := Reach.head h1 h2
+    simpa [List.append_assoc] using this
+
+theorem Sc.tok_plain (s : Sc) : s.tok.isPlain = true := by cases s <;> rfl
+
+
+theorem Reach1.of_step_eq {a a' c : St} (h : step a' = step a) (hr : Reach1 a c) : Reach1 a' c := by
+  obtain ⟨k, hk⟩ := hr
+  exact ⟨k, by simpa [stepN, h] using hk⟩
+
+/-- the tail of a mixed container: trailing scalars after the last field, then `}` -/
+theorem mixed_tail_reach (T inner0 : Tape) (p : Nat) (x : BTok) (hx : T[p]? = some x) (rs : List Sc) (hne : rs ≠ [])
+    (hw : rs.all Sc.wf = true) (rest : Bytes) :
+    Reach ⟨T ++ BTok.object p :: inner0, T.length, .key, rs.flatMap Sc.encode ++ (le16 L.close ++ rest)⟩
+      ⟨T ++ BTok.object (T.length + 1 + (inner0 ++ BTok.mixed :: rs.map Sc.tok).length) :: (inner0 ++ BTok.mixed :: rs.map Sc.tok)
+          ++ [.end_ T.length], p, closeState x, rest⟩ := by
+  match rs, hne, hw with
+  | [r1], _, hw =>
+    simp only [List.all_cons, List.all_nil, Bool.and_true] at hw
+    have h1 := step_sc r1 hw (T ++ BTok.object p :: inner0) T.length .key .keyValueSeparator (le16 L.close ++ rest) (by decide) nextState_key
+    have h2 := step_close_kvs (T ++ BTok.object p :: inner0) r1.tok T.length rest
+    have h3 := step_close_at T (inner0 ++ [.mixed, r1.tok]) p x true .arrayValueMixed rest hx (by decide) (by decide) (by decide)
+    simp only [if_true] at h3
+    have e : T ++ BTok.object p :: inner0 ++ [BTok.mixed, r1.tok] = T ++ BTok.object p :: (inner0 ++ [BTok.mixed, r1.tok]) := by simp
+    rw [e, h3] at h2
+    simpa using Reach.head h1 (Reach.head h2 (Reach.refl _))
+  | r1 :: r2 :: rs', _, hw =>
+    simp only [List.all_cons, Bool.and_eq_true] at hw
+    obtain ⟨hw1, hw2, hw3⟩ := hw
+    have h1 := step_sc r1 hw1 (T ++ BTok.object p :: inner0) T.length .key .keyValueSeparator
+      (r2.encode ++ (rs'.flatMap Sc.encode ++ (le16 L.close ++ rest))) (by decide) nextState_key
+    have h2 := step_sc r2 hw2 (T ++ BTok.object p :: inner0 ++ [r1.tok]) T.length .keyValueSeparator .objectToArray
+      (rs'.flatMap Sc.encode ++ (le16 L.close ++ rest)) (by decide) nextState_kvs
+    have e0 : T ++ BTok.object p :: inner0 ++ [r1.tok] ++ [r2.tok] = (T ++ BTok.object p :: inner0) ++ [r1.tok, r2.tok] := by simp
+    rw [e0] at h2
+    have hmix := scalars_mixed_reach rs' hw3 ((T ++ BTok.object p :: inner0) ++ [.mixed, r1.tok, r2.tok]) T.length (le16 L.close ++ rest)
+    have hclose := step_close_at T (inner0 ++ [.mixed, r1.tok, r2.tok] ++ rs'.map Sc.tok) p x true .arrayValueMixed rest hx
+      (by decide) (by decide) (by decide)
+    simp only [if_true] at hclose
+    have e : (T ++ BTok.object p :: inner0) ++ [BTok.mixed, r1.tok, r2.tok] ++ rs'.map Sc.tok
+        = T ++ BTok.object p :: (inner0 ++ [BTok.mixed, r1.tok, r2.tok] ++ rs'.map Sc.tok) := by simp
+    rw [e] at hmix
+    have hr1 : Reach1 ⟨(T ++ BTok.object p :: inner0) ++ [.mixed, r1.tok, r2.tok], T.length, .arrayValueMixed,
+        rs'.flatMap Sc.encode ++ (le16 L.close ++ rest)⟩ _ := Reach1.trans_left hmix (Reach1.single hclose)
+    have hr2 := Reach1.of_step_eq (step_o2a (T ++ BTok.object p :: inner0) r1.tok r2.tok T.length
+      (rs'.flatMap Sc.encode ++ (le16 L.close ++ rest))) hr1
+    have := Reach.head h1 (Reach.head h2 hr2.toReach)
+    simpa [List.append_assoc] using this
+
 mutual
 theorem val_value_reach : ∀ (v : Val), v.wf = true →
     ∀ (T : Tape) (p : Nat) (rest : Bytes) (x : BTok), T[p]? = some x → x.notArray →
@@ -321,6 +407,47 @@ theorem val_value_reach : ∀ (v : Val), v.wf = true →
     have h := obj_reach fs (by simpa [Val.wf] using hw) T p rest x .objectValue hx (by decide) (by decide)
     rw [closeState_key hxa] at h
     exact h
+  | .mixed fs tail, hw, T, p, rest, x, hx, hxa => by
+    simp only [Val.wf, Bool.and_eq_true, Bool.not_eq_true', List.isEmpty_eq_false_iff] at hw
+    have h := mixed_reach fs tail hw.1.1.1 hw.1.1.2 hw.1.2 hw.2 T p rest x .objectValue hx (by decide) (by decide)
+    rw [closeState_key hxa] at h
+    exact h
+theorem mixed_reach : ∀ (fs : Fields) (tail : List Sc), fs.wf = true → fs.nonEmpty = true → tail ≠ [] → tail.all Sc.wf = true →
+    ∀ (T : Tape) (p : Nat) (rest : Bytes) (x : BTok) (s : PState), T[p]? = some x → s ≠ .key → s ≠ .objectToArray →
+    Reach ⟨T, p, s, (Val.mixed fs tail).encode ++ rest⟩ ⟨T ++ (Val.mixed fs tail).tape T.length true, p, closeState x, rest⟩
+  | .nil, _, _, hne, _, _, _, _, _, _, _, _, _, _ => by simp [Fields.nonEmpty] at hne
+  | .cons g k v more, tail, hw, _, htne, htw, T, p, rest, x, s, hx, hs1, hs2 => by
+    simp only [Fields.wf, Bool.and_eq_true] at hw
+    obtain ⟨⟨hk, hwv⟩, hwm⟩ := hw
+    have h123 := obj_front_reach T p g k hk s
+      (v.encode ++ (more.encode ++ (tail.flatMap Sc.encode ++ (le16 L.close ++ rest)))) hs1 hs2
+    have hslot : (T ++ [BTok.object p, k.tok])[T.length]? = some (.object p) := by simp
+    have h4 := val_value_reach v hwv (T ++ [BTok.object p, k.tok]) T.length
+      (more.encode ++ (tail.flatMap Sc.encode ++ (le16 L.close ++ rest))) (.object p) hslot trivial
+    have hslot2 : (T ++ [BTok.object p, k.tok] ++ v.tape (T ++ [BTok.object p, k.tok]).length true)[T.length]? = some (.object p) := by
+      rw [List.getElem?_append_left (by simp)]; exact hslot
+    have h5 := fields_reach more hwm _ T.length (tail.flatMap Sc.encode ++ (le16 L.close ++ rest)) (.object p) hslot2 trivial
+    have h6 := mixed_tail_reach T (k.tok :: (v.tape (T.length + 2) true ++ more.tape (T.length + 2 + (v.tape (T.length + 2) true).length)))
+      p x hx tail htne htw rest
+    have e1 : (Val.mixed (Fields.cons g k v more) tail).encode ++ rest
+        = le16 L.open_ ++ (ghostBytes g ++ (k.encode ++ (le16 L.equal ++ (v.encode ++ (more.encode ++
+            (tail.flatMap Sc.encode ++ (le16 L.close ++ rest))))))) := by
+      simp [Val.encode, Fields.encode, List.append_assoc]
+    have e2 : T ++ [BTok.object p, k.tok] ++ v.tape (T ++ [BTok.object p, k.tok]).length true ++
+          more.tape (T ++ [BTok.object p, k.tok] ++ v.tape (T ++ [BTok.object p, k.tok]).length true).length
+        = T ++ BTok.object p :: k.tok :: (v.tape (T.length + 2) true ++ more.tape (T.length + 2 + (v.tape (T.length + 2) true).length)) := by
+      simp [Nat.add_assoc, Nat.add_comm, Nat.add_left_comm]
+      congr 1; omega
+    have e3 : T ++ (Val.mixed (Fields.cons g k v more) tail).tape T.length true
+        = T ++ BTok.object (T.length + 1 +
+              ((k.tok :: (v.tape (T.length + 2) true ++ more.tape (T.length + 2 + (v.tape (T.length + 2) true).length)))
+                ++ BTok.mixed :: tail.map Sc.tok).length)
+            :: ((k.tok :: (v.tape (T.length + 2) true ++ more.tape (T.length + 2 + (v.tape (T.length + 2) true).length)))
+                ++ BTok.mixed :: tail.map Sc.tok) ++ [.end_ T.length] := by
+      simp [Val.tape, Fields.tape, Nat.add_assoc, Nat.add_comm, Nat.add_left_comm]
+    rw [e1, e3]
+    rw [e2] at h5
+    exact h123.trans (h4.trans (h5.trans h6))
 theorem obj_reach : ∀ (fs : Fields), fs.wf = true →
     ∀ (T : Tape) (p : Nat) (rest : Bytes) (x : BTok) (s : PState), T[p]? = some x → s ≠ .key → s ≠ .objectToArray →
     Reach ⟨T, p, s, (Val.obj fs).encode ++ rest⟩ ⟨T ++ (Val.obj fs).tape T.length true, p, closeState x, rest⟩
@@ -376,6 +503,10 @@ theorem val_elem_reach : ∀ (v : Val), v.wf = true →
     exact ⟨_, closeState_inArr g, by simpa [Val.encode, Val.tape, List.append_assoc] using h⟩
   | .obj fs, hw, T, p, rest, g, s, hx, hs => by
     have h := obj_reach fs (by simpa [Val.wf] using hw) T p rest (.array g) s hx hs.ne.1 hs.ne.2.1
+    exact ⟨_, closeState_inArr g, by simpa [Val.tape] using h⟩
+  | .mixed fs tail, hw, T, p, rest, g, s, hx, hs => by
+    simp only [Val.wf, Bool.and_eq_true, Bool.not_eq_true', List.isEmpty_eq_false_iff] at hw
+    have h := mixed_reach fs tail hw.1.1.1 hw.1.1.2 hw.1.2 hw.2 T p rest (.array g) s hx hs.ne.1 hs.ne.2.1
     exact ⟨_, closeState_inArr g, by simpa [Val.tape] using h⟩
 theorem fields_reach : ∀ (fs : Fields), fs.wf = true →
     ∀ (T : Tape) (p : Nat) (rest : Bytes) (x : BTok), T[p]? = some x → x.notArray →
